@@ -109,6 +109,12 @@ def run_loss(rep, tier, seed, script, judge_ops, sizes=None, classes=None):
         pool = mc.pool_map(rl.prepare_model, [(ns, np_, nt, (seed % 100000) * 100 + ns * 10 + np_ + 1000 * q, False) for q in range(npool)] +
                            ([(ns, np_, nt, (seed % 100000) * 100 + ns * 10 + np_ + 1000 * q + 500, True) for q in range(2 if quick else 4)]
                             if script == "C20" else []))
+        # the package's own catalogue models of this size join the pool
+        from engine import catalogue
+        cat = [e["name"] for e in catalogue.models() if (e["defn"].sy.ns, e["defn"].sy.np) == (ns, np_) and not e["defn"].sy.atoms]
+        if cat and script != "C20":
+            pool += mc.pool_map(rl.prepare_catalogue_model, [(nm, nt, (seed % 100000) * 100 + 7 * k) for k, nm in enumerate(cat)])
+            rep.cov.setdefault("catalogue_models_in_pool", []).extend(n for n in cat if n not in rep.cov.get("catalogue_models_in_pool", []))
         nchunk = mc.NPROC * 2
         chunks = [behs[i::nchunk] for i in range(nchunk)]
         jobs = [(header, c, seed % 100000 + 17 * i, {"judge_ops": judge_ops, "classes": classes}, pool) for i, c in enumerate(chunks) if c]
